@@ -8,8 +8,8 @@ from harness.core import Check, Finding
 
 KINDS = ['cookies', 'headers', 'status', 'raised', 'errpage', 'crash', 'body',
          'notfound', 'notallowed', 'badpath', 'empty', 'head', 's204',
-         'toolarge', 'badjson', 'errjson', 'crashjson', 'copyhdr', 'badmultipart', 'chunked', 'multipart', 'chunkedmp']
-QUICK_KINDS = ['cookies', 'headers', 'status', 'raised']
+         'toolarge', 'badjson', 'errjson', 'crashjson', 'copyhdr', 'badmultipart', 'chunked', 'multipart', 'chunkedmp', 'routed', 'routedsel', 'signed', 'signeddict']
+QUICK_KINDS = ['cookies', 'headers', 'status']
 
 # application configurations (DESIGN.md 6/C08 kinds "error page"): plain, debug pages, custom
 # @app.error handlers that look at app.response, before/after_request hooks that write and read it
@@ -34,8 +34,24 @@ ERROR_PAIRS = [
     ('crashjson', 'errjson', 'debug'), ('cookies', 'toolarge', 'hooks'), ('toolarge', 'headers', 'hooks'),
     ('status', 'raised', 'hooks'), ('raised', 'status', 'debughooks'), ('copyhdr', 'headers', 'plain'),
     ('headers', 'copyhdr', 'hooks'), ('badmultipart', 'badmultipart', 'debug'), ('badmultipart', 'badjson', 'debug'),
-    ('errpage', 'status', 'plain'), ('cookies', 'errpage', 'plain'), ('body', 'cookies', 'plain'),
+    ('errpage', 'status', 'plain'), ('cookies', 'errpage', 'plain'), ('body', 'cookies', 'plain'), ('raised', 'raised', 'plain'),
     ('headers', 'body', 'plain'), ('body', 'body', 'plain'),
+]
+
+# a cold process: lazily filled module-level caches (the error page template lines, the filter cache) are
+# emptied before every scheduled run; error pages on both threads, and a later request on thread 1
+COLD_PAIRS = [
+    ('notfound', 'errpage', 'plain', 'notfound'), ('errpage', 'notfound', 'debug', 'crash'),
+    ('notallowed', 'crash', 'plain', 'errpage'), ('crash', 'errjson', 'debug', 'notfound'),
+    ('errjson', 'notfound', 'plain', 'notallowed'), ('toolarge', 'notfound', 'plain', 'errpage'),
+]
+
+# the routing step itself: two requests through the SAME route object with wildcard filters, and
+# signed cookies with mutable payloads presented by both requests
+ROUTE_PAIRS = [
+    ('routed', 'routed', 'plain'), ('routed', 'routedsel', 'plain'), ('routedsel', 'routedsel', 'hooks'),
+    ('routedsel', 'routed', 'plain'), ('signed', 'signed', 'plain'), ('signeddict', 'signeddict', 'plain'),
+    ('signed', 'cookies', 'plain'),
 ]
 
 # bodies whose decoding is interleaved: preemption points inside _iter_chunked / _iter_body / _body_read /
@@ -120,6 +136,29 @@ def mk(kind, p, rid, app=1):
             r['chunks'] = [29 + p % 4, 5, 64]
         r['ops'] = [('form', 'f'), ('file', 'u', 'filename'), ('file', 'u', 'ctype'), ('file', 'u', 'hdr:X-P'),
                     ('file', 'u', 'data'), ('form', 'g'), ('file', 'nope', 'filename'), ('body',)]
+    elif kind == 'routed':
+        # ONE route object with every filter kind; the matched values (and their lengths) depend on p
+        vals = dict(a=(-1) ** p * (7 * p + 3) * 10 ** (p % 3), b=p + 0.5 * (p % 2) + (0.25 if p % 3 == 0 else 0),
+                    c='q' * (1 + p % 4), d='aa', e='/'.join('s%d' % i * (1 + p % 2) for i in range(1 + p % 3)), s='w%d' % p * (1 + p % 3))
+        r['rule'] = '/w/<a:int>/<b:float>x<c.re(q+)>/<d.rex((aa)|(b))[1]>z/<s>/<e.path()>/end'
+        r['path'] = '/w/%d/%sx%s/%sz/%s/%s/end' % (vals['a'], repr(float(vals['b'])), vals['c'], vals['d'], vals['s'], vals['e'])
+        r['kwargs'] = dict(vals, b=float(vals['b']))
+        r['ops'] = [('kwargs',), ('path',), ('urlargs',), ('query', 'q')]
+        r['out'] = ('ret', 'routed')
+    elif kind == 'routedsel':
+        # two routes that differ only in the selector of their rex filter: [1] takes (aa), [2] takes (b)
+        sel = 1 + p % 2
+        r['rule'] = '/v/<d.rex((aa)|(b))[%d]>z/<s>/t' % sel
+        r['path'] = '/v/%sz/%s/t' % ('aa' if sel == 1 else 'b', 'n%d' % p * (1 + p % 3))
+        r['kwargs'] = dict(d='aa' if sel == 1 else 'b', s='n%d' % p * (1 + p % 3))
+        r['ops'] = [('kwargs',), ('urlargs',), ('path',)]
+        r['out'] = ('ret', 'sel%d' % sel)
+    elif kind in ('signed', 'signeddict'):
+        # the SAME signed cookie text in every request of the kind; the handler edits the decoded
+        # (mutable) payload in place and sets it again
+        pl = [1, 2, 'x'] if kind == 'signed' else {'n': 1, 'l': 'x'}
+        r['signed'] = {'s': pl}
+        r['ops'] = [('scookie_edit', 's', pl, 'm%d' % p), ('cookie', 'c'), ('scookie', 's')]
     elif kind == 'errjson':
         r['hdrs'] = dict(r['hdrs'], Accept='application/json')
         r['ops'] = [('sethdr', 'X-Own', 'o%d' % p), ('query', 'q')]
@@ -139,10 +178,13 @@ def mk(kind, p, rid, app=1):
     return r
 
 
-def base_case(kinds, cfg='plain'):
-    """one fresh application, thread i serves a request of kinds[i-1]"""
-    return dict(apps=[1], threads={i + 1: [('serve', mk(k, i + 1, i + 1))] for i, k in enumerate(kinds)},
-                switches=[], cfg={1: CFGS[cfg]})
+def base_case(kinds, cfg='plain', later=None):
+    """one fresh application, thread i serves a request of kinds[i-1]; `later`: kinds of requests
+    thread 1 serves afterwards (the same thread back-to-back, and "every later request")"""
+    threads = {i + 1: [('serve', mk(k, i + 1, i + 1))] for i, k in enumerate(kinds)}
+    for j, k in enumerate(later or ()):
+        threads[1].append(('serve', mk(k, len(kinds) + 1 + j, len(kinds) + 1 + j)))
+    return dict(apps=[1], threads=threads, switches=[], cfg={1: CFGS[cfg]})
 
 
 # --------------------------------------------------------------------------------------
@@ -196,7 +238,23 @@ def check_case(case, w, cache):
             names = '+'.join(it[1].get('name', '?') for it in case['threads'][tid] if it[0] == 'serve')
             return (k, 'thread %d (%s) under the schedule differs from the same request served alone: got %r expected %r'
                     % (tid, names, got[:6], expect[:6]))
+    ref = module_ref(case, cache)
+    if ref is not None and w.module_state != ref:
+        bad = [n for (n, a), (_, b) in zip(w.module_state, ref) if a != b]
+        return ('module-state', 'after the scheduled run the module-level objects %s differ from what the same requests '
+                'leave behind when served one after the other in a fresh process: %r'
+                % (bad, [a for (n, a) in w.module_state if n in bad][:1]))
     return None
+
+
+def module_ref(case, cache):
+    """the module-level state the requests of the case leave behind when served without preemption in a
+    forked child of the untouched process"""
+    key = '__module__' + json.dumps([case['threads'], case.get('cfg')], sort_keys=True, default=str)
+    if key not in cache:
+        seq = dict(case, switches=[])
+        cache[key] = tsconc.pristine(lambda: tsconc.run_case(seq).module_state)
+    return cache[key]
 
 
 def run_one(case, cache):
@@ -210,17 +268,19 @@ def shard(args):
     """worker: one base case and its schedules"""
     kinds, mode, seed, count = args[:4]
     cfg = args[4] if len(args) > 4 else 'plain'
-    part, nparts, cap = args[5] if len(args) > 5 else (0, 1, 0)
+    part, nparts, cap = args[5] if len(args) > 5 and args[5] else (0, 1, 0)
+    later = args[6] if len(args) > 6 else None
     cache = {}
     out = {}
     finds = []
     stats = dict(schedules=0, points=0)
-    base = base_case(kinds, cfg)
+    base = base_case(kinds, cfg, later)
     try:
         # the references first, while this process has not run anything concurrently
         for tid in sorted(base['threads']):
             for it in base['threads'][tid]:
                 solo_obs(it[1], cache, base.get('cfg'))
+        module_ref(base, cache)
         line, ans, bad, w0 = run_one(base, cache)
         order = w0.sched.order
         total = w0.sched.step
@@ -229,6 +289,10 @@ def shard(args):
             # every single preemption point of thread 1, handing over to each other thread
             # (long programs are cut into `nparts` shards; `cap` > 0 thins the points of very long ones)
             n1 = order[0][1]
+            if later:
+                # sweep the whole run of thread 1's FIRST request (the later ones follow unpreempted)
+                first = dict(base, threads={1: base['threads'][1][:1]})
+                n1 = min(n1, tsconc.pristine(lambda: tsconc.run_case(first).sched.step))
             stride = 1 if not cap or n1 <= cap else -(-n1 // cap)
             ks = [k for k in range(1 + (seed % stride), n1 + 1, stride)]
             ks = [k for i, k in enumerate(ks) if i % nparts == part]
@@ -244,13 +308,13 @@ def shard(args):
                 npre = rng.randint(2, 6)
                 pts = sorted(rng.sample(range(1, total + 1), min(npre, total)))
                 cases.append([(p, rng.randint(1, n)) for p in pts])
-        out[(line, ans)] = dict(kinds=kinds, cfg=cfg, switches=[])
+        out[(line, ans)] = dict(kinds=kinds, cfg=cfg, later=later, switches=[])
         for sw in cases:
             c = dict(base, switches=sw)
             line, ans, bad, w = run_one(c, cache)
             stats['schedules'] += 1
             if (line, ans) not in out:
-                out[(line, ans)] = dict(kinds=kinds, cfg=cfg, switches=sw)
+                out[(line, ans)] = dict(kinds=kinds, cfg=cfg, later=later, switches=sw)
             if bad:
                 finds.append((bad[0], bad[1], dict(case=c)))
         labels = tsconc.labels_by_thread(w0.sched.events)
@@ -306,7 +370,11 @@ class C08(Check):
             'requests failing onto the SAME shared errors_map object (oversized form, invalid JSON, malformed '
             'multipart with request-specific text), urlencoded / chunked / multipart / chunked-multipart bodies with '
             'uploads, Request.copy() with edits of the copy after header views were cached, before/after_request '
-            'hooks, 404/405/bad path/empty/HEAD/204; quick: every single preemption point of thread 1 (every k-th '
+            'hooks, 404/405/bad path/empty/HEAD/204, two requests through ONE route object with int/float/re/rex[selector]/path '
+            'filters and different matched values (handler kwargs, url_args), signed cookies with mutable payloads '
+            'edited in place (same raw cookie on both threads and back-to-back); every scheduled run starts COLD '
+            '(lazily filled module-level caches emptied: template lines, filter cache; found by walking the package) '
+            'and the module-level state left behind is compared with that of an unpreempted run in a fresh process; quick: every single preemption point of thread 1 (every k-th '
             'line for programs over 900 lines) x ~45 ordered pairs of kinds and application configurations, plus '
             'random 2-6 preemptions over 2-3 threads; thorough: all pairs, all points. Every thread is compared with '
             'its request served alone in a forked child of the untouched process, and each schedule is replayed in '
@@ -317,6 +385,8 @@ class C08(Check):
                    'handlers reach request and response state only through app.request / app.response',
                    'no code writes the shared HTTPError objects of errors_map (tied: generated table + probe; model '
                    'step errSet is excluded by Prog.Serves)',
+                   'lazily filled module-level caches are init-once cells whose content is a function of the tree (model: '
+                   'tmplLoad / template_cache_init_once; code: cold runs + module-state comparison)',
                    'router answer, parsed query/cookie/form/upload values, status phrases and the error page templates '
                    'are data of the request in the model (properties C01, C02, C04-C07, C15, C18, C20)']
 
@@ -341,13 +411,20 @@ class C08(Check):
             for b in kinds:
                 jobs.append(((a, b), 'single', 0, 0, 'plain'))
         for a, b, cfg in ERROR_PAIRS:
+            # quick: every second line or so (offset varies with the seed); thorough: every line
+            jobs.append(((a, b), 'single', rng.randrange(1000), 0, cfg, (0, 1, 0 if thorough else 300)))
+        for a, b, cfg in ROUTE_PAIRS:
             jobs.append(((a, b), 'single', 0, 0, cfg))
+        for a, b, cfg, later in COLD_PAIRS:
+            jobs.append(((a, b), 'single', 0, 0, cfg, None, (later,)))
+        # the same raw signed cookie back-to-back on one thread while another thread presents it too
+        jobs.append((('signed', 'signed'), 'single', 0, 0, 'plain', None, ('signed', 'signeddict')))
         off = rng.randrange(1000)
         for a, b, cfg in BODY_PAIRS:
             nparts = 4
             for part in range(nparts):
                 # quick: at most ~900 preemption points per pair (every k-th line, the offset varies with the seed)
-                jobs.append(((a, b), 'single', off, 0, cfg, (part, nparts, 0 if thorough else 900)))
+                jobs.append(((a, b), 'single', off, 0, cfg, (part, nparts, 0 if thorough else 600)))
         if thorough:
             for a, b, cfg in ERROR_PAIRS:
                 for c2 in CFGS:
@@ -360,8 +437,8 @@ class C08(Check):
             jobs.append((ks, 'random', rng.randrange(1 << 30), 40 if not thorough else 120, rng.choice(sorted(CFGS))))
         if n >= 2 and not thorough:      # escalated quick run: a sample of the remaining pairs as well
             rest = [(a, b) for a in KINDS for b in KINDS if a not in QUICK_KINDS or b not in QUICK_KINDS]
-            for a, b in rng.sample(rest, min(len(rest), 30 * n)):
-                jobs.append(((a, b), 'single', rng.randrange(1000), 0, rng.choice(sorted(CFGS)), (0, 1, 600)))
+            for a, b in rng.sample(rest, min(len(rest), 10 * n)):
+                jobs.append(((a, b), 'single', rng.randrange(1000), 0, rng.choice(sorted(CFGS)), (0, 1, 300)))
         return jobs
 
     def _run(self, rng, n):
@@ -429,7 +506,7 @@ class C08(Check):
         cache = {}
         for s in seeds[:50]:
             try:
-                c = dict(base_case(tuple(s['kinds']), s.get('cfg', 'plain')), switches=[tuple(x) for x in s['switches']])
+                c = dict(base_case(tuple(s['kinds']), s.get('cfg', 'plain'), s.get('later')), switches=[tuple(x) for x in s['switches']])
                 bad = tsconc.pristine(lambda: run_one(c, {})[2])
                 evals += 1
                 if bad:
